@@ -5,3 +5,4 @@ import PtaModel.Search
 import PtaModel.Flags
 import PtaModel.Rule
 import PtaModel.Glob
+import PtaModel.Layer
